@@ -97,6 +97,14 @@ func (it *Interp) codecMethod(n *Native, name string, a []Val) Val {
 			}
 			return it.newErr(IfaceV{}, "unmarshal: "+msg)
 		}
+		if bz.Boxed == nil && isPlainB(bz) && len(bz.Bytes) == 0 {
+			// proto3: empty bytes decode to the zero message
+			*p = it.zero(elem)
+			if must {
+				return nil
+			}
+			return IfaceV{}
+		}
 		if bz.Boxed != nil {
 			if typeKey(bz.BoxT) != typeKey(elem) {
 				return fail("type mismatch " + typeKey(bz.BoxT) + " vs " + typeKey(elem))
